@@ -6,7 +6,7 @@ from ..core import hx, unhx
 from ..gen import G
 from ..appcase import AppCase
 
-THEOREMS = []
+THEOREMS = ['parse_body', 'parse_preamble', 'parse_records', 'parse_render', 'layout_irrelevant', 'last_record_kept', 'crlf_irrelevant']
 LEVEL = 'proof'
 RULE = ('documents generated from the documented grammar (random layouts per line) and all token sequences up to a bound; '
         'non-trivial = at least two records or at least two different layout variants in one file; distinct by content hash')
